@@ -182,8 +182,11 @@ func C13(ctx *core.Ctx) int {
 			progs = append(progs, p)
 		}
 	}
-	if ctx.Thorough() {
-		progs = append(progs, dsl.P3()...)
+	for i, p := range dsl.P3() {
+		// nested inline objects and deep chains reach per-packet early exits and nested emitters
+		if ctx.Thorough() || strings.Contains(p.Name, "inline>inline") || strings.Contains(p.Name, "repinline>repinline") || i%11 == 0 {
+			progs = append(progs, p)
+		}
 	}
 	if ctx.Replay != "" {
 		var r struct {
@@ -200,13 +203,21 @@ func C13(ctx *core.Ctx) int {
 	st := &c13Stats{}
 	samples := &core.Sample{N: 8}
 	type job struct {
-		p    *dsl.Program
-		lang string
+		p     *dsl.Program
+		lang  string
+		name  string
+		text  string
+		plain bool
 	}
 	var jobs []job
 	for _, p := range progs {
 		for _, l := range api.Langs {
-			jobs = append(jobs, job{p, l})
+			jobs = append(jobs, job{p, l, p.Name, p.Text(), true})
+			// the same program with every declaration on one source line (positions tie: anything ordered by
+			// line numbers falls back to the underlying iteration order)
+			if ctx.Thorough() || strings.HasPrefix(p.Name, "P5/") || strings.HasPrefix(p.Name, "P6/") {
+				jobs = append(jobs, job{p, l, p.Name + " (one line)", dsl.Render(p.Tokens(), dsl.OneLine), false})
+			}
 		}
 	}
 	fullPerm := 4
@@ -218,7 +229,10 @@ func C13(ctx *core.Ctx) int {
 	enumerated := sync.Map{} // program|lang -> set of outcome hashes, and whether complete
 	core.Parallel(len(jobs), func(i int) {
 		j := jobs[i]
-		set, complete := c13Explore(ctx, j.p.Name, j.p.Text(), j.lang, st, fullPerm, capExecs, samples)
+		set, complete := c13Explore(ctx, j.name, j.text, j.lang, st, fullPerm, capExecs, samples)
+		if !j.plain {
+			return
+		}
 		enumerated.Store(j.p.Name+"|"+j.lang, struct {
 			set      map[string]bool
 			complete bool
@@ -312,7 +326,7 @@ func C13(ctx *core.Ctx) int {
 
 func progName(n string) string {
 	if i := strings.Index(n, "{"); i > 0 {
-		return n[:i]
+		n = n[:i]
 	}
 	return n
 }
